@@ -341,11 +341,15 @@ func c15ConnGone(c *Ctx) {
 		{{Op: "fail", Arg: 5}, {Op: "subscribe", ID: 1, Query: 4}, {Op: "pause", Arg: 2000}, {Op: "echo", ID: 2}, {Op: "subscribe", ID: 2, Query: 0}, {Op: "settle"}, {Op: "echo", ID: 3}},
 		{{Op: "subscribe", ID: 1, Query: 4}, {Op: "settle"}, {Op: "fail", Arg: 5}, {Op: "settle"}, {Op: "echo", ID: 2}, {Op: "heal"}, {Op: "subscribe", ID: 3, Query: 0}, {Op: "settle"}},
 		{{Op: "fail", Arg: 5}, {Op: "subscribe", ID: 1, Query: 4}, {Op: "subscribe", ID: 2, Query: 4}},
+		// finding C15-6: a list aliased as __key; the first re-run's diff must not take the process down
+		{{Op: "subscribe", ID: 1, Query: 6}, {Op: "settle"}, {Op: "change", Arg: 3}, {Op: "settle"}, {Op: "change", Arg: 11}, {Op: "settle"}, {Op: "echo", ID: 2}},
 	}
 	for i, acts := range histories {
 		for _, early := range []bool{false, true} {
 			cs := cnCase{Seed: uint64(40 + i), Actions: acts, CloseEarly: early, SlowUs: 300 * i}
+			Inflight(cs) // a panic on the rerunner's goroutine ends the process
 			res := cnRun(cs)
+			InflightDone()
 			if res.Problem != "" {
 				rep.Fail("impl_ne_spec", nil, cs, map[string]interface{}{"what": "websocket, a resolver reports a cancellation / the client goes away: " + res.Problem})
 				return
@@ -368,4 +372,67 @@ func c15ConnGone(c *Ctx) {
 			rep.Count("conn_gone_histories")
 		}
 	}
+}
+
+// c15GatewayBomb (finding C15-10, notes/hunt/C15 find4): fragments that spread each other twice must not make the
+// gateway's planning exponential: 25 levels (about 1 KB) are planned and answered within 2 s.
+func c15GatewayBomb(c *Ctx) {
+	rep := c.Rep
+	cs := map[string]interface{}{"gateway": "fragments that spread each other twice, 25 levels"}
+	sb := schemabuilder.NewSchemaWithName("s1")
+	sb.Query().FieldFunc("a", func() int64 { return 1 })
+	sb.Mutation()
+	srv, err := federation.NewServer(sb.MustBuild())
+	if err != nil {
+		rep.Fail("harness_error", nil, cs, map[string]interface{}{"error": err.Error()})
+		return
+	}
+	execs := map[string]federation.ExecutorClient{"s1": &federation.DirectExecutorClient{Client: srv}}
+	ctx, cancel := context.WithCancel(context.Background())
+	defer cancel()
+	e, err := federation.NewExecutor(ctx, execs, &federation.SchemaSyncerConfig{SchemaSyncer: federation.NewIntrospectionSchemaSyncer(ctx, execs, nil)})
+	if err != nil {
+		rep.Fail("harness_error", nil, cs, map[string]interface{}{"error": err.Error()})
+		return
+	}
+	var b strings.Builder
+	b.WriteString("query Q { ...F0 }\n")
+	for i := 0; i < 25; i++ {
+		fmt.Fprintf(&b, "fragment F%d on Query { ...F%d ...F%d }\n", i, i+1, i+1)
+	}
+	b.WriteString("fragment F25 on Query { a }\n")
+	q, err := graphql.Parse(b.String(), map[string]interface{}{})
+	if err != nil {
+		rep.Fail("harness_error", nil, cs, map[string]interface{}{"error": err.Error()})
+		return
+	}
+	done := make(chan string, 1)
+	Inflight(cs)
+	go func() {
+		var out interface{}
+		var gerr error
+		if p := safely(func() { out, _, gerr = e.Execute(context.Background(), q, nil) }); p != nil {
+			gerr = fmt.Errorf("panic: %v", p)
+		}
+		if gerr != nil {
+			done <- "error: " + gerr.Error()
+		} else {
+			done <- Canon(out)
+		}
+	}()
+	select {
+	case got := <-done:
+		InflightDone()
+		if got != `{"a":1}` {
+			rep.Fail("impl_ne_spec", nil, cs, map[string]interface{}{"what": "the gateway's answer to the query with shared fragments", "got": firstN(got, 200)})
+			return
+		}
+	case <-patient(2 * time.Second):
+		// the planning goes on (and eats memory): end the run here; bin/check re-runs the journalled case alone
+		// (the planning goes on in its goroutine: this case runs last)
+		rep.Fail("impl_ne_spec", nil, cs, map[string]interface{}{"what": "the gateway needs more than 2 s to plan a 1 KB query whose fragments spread each other twice (planning exponential in the number of fragments)"})
+		return
+	}
+	rep.Count("gateway_fragment_bomb")
+	rep.Eval("gateway-bomb", true, cs)
 }
